@@ -98,7 +98,7 @@ func GetKeyFromPassword(passwd string, cname types.PrincipalName, realm string, 
 			if len(eti) == 0 {
 				return key, et, errors.New("PA-ETYPE-INFO contains no entries")
 			}
-			if etypeID != eti[0].EType {
+			if et.GetETypeID() != eti[0].EType {
 				et, err = GetEtype(eti[0].EType)
 				if err != nil {
 					return key, et, fmt.Errorf("error getting encryption type: %v", err)
@@ -119,7 +119,7 @@ func GetKeyFromPassword(passwd string, cname types.PrincipalName, realm string, 
 			if len(et2) == 0 {
 				return key, et, errors.New("PA-ETYPE-INFO2 contains no entries")
 			}
-			if etypeID != et2[0].EType {
+			if et.GetETypeID() != et2[0].EType {
 				et, err = GetEtype(et2[0].EType)
 				if err != nil {
 					return key, et, fmt.Errorf("error getting encryption type: %v", err)
